@@ -193,9 +193,65 @@ func c16run(line string) (string, []string) {
 		if i < 0 {
 			return "unknown", nil
 		}
-		return c16extract(f[i+1] == "1", unhx(f[i+2]), nil)
+		res, viol := c16extract(f[i+1] == "1", unhx(f[i+2]), nil)
+		return c16canonHdr(f, res), viol
 	}
 	return "unknown", nil
+}
+
+// c16canonHdr: the property wants the header's bounds and centre to BE the region's bounding box and its centre; a float64 -> E7
+// conversion (truncating or rounding) lands within one unit. The compared observable therefore is: per field, the exact value when the
+// stored one is within one unit of it (centre: within one unit of the exact midpoint), the stored value otherwise.
+func c16canonHdr(f []string, res string) string {
+	v := strings.Fields(res)
+	if len(v) != 6 {
+		return res
+	}
+	var k, n int
+	fmt.Sscan(f[1], &k)
+	fmt.Sscan(f[2], &n)
+	scale := int64(1)
+	for i := k; i < 7; i++ {
+		scale *= 10
+	}
+	var minLo, maxLo, minLa, maxLa int64
+	for i := 0; i < n; i++ {
+		var lo, la int64
+		fmt.Sscan(f[3+2*i], &lo)
+		fmt.Sscan(f[4+2*i], &la)
+		if i == 0 || lo < minLo {
+			minLo = lo
+		}
+		if i == 0 || lo > maxLo {
+			maxLo = lo
+		}
+		if i == 0 || la < minLa {
+			minLa = la
+		}
+		if i == 0 || la > maxLa {
+			maxLa = la
+		}
+	}
+	exact := []int64{minLo * scale, minLa * scale, maxLo * scale, maxLa * scale}
+	out := make([]string, 6)
+	for i := 0; i < 4; i++ {
+		var x int64
+		fmt.Sscan(v[i], &x)
+		if d := x - exact[i]; d >= -1 && d <= 1 {
+			x = exact[i]
+		}
+		out[i] = fmt.Sprint(x)
+	}
+	for i, sum := range []int64{(minLo + maxLo) * scale, (minLa + maxLa) * scale} {
+		var x int64
+		fmt.Sscan(v[4+i], &x)
+		if d := 2*x - sum; d >= -2 && d <= 2 {
+			out[4+i] = "mid"
+		} else {
+			out[4+i] = fmt.Sprint(x)
+		}
+	}
+	return strings.Join(out, " ")
 }
 func indexOf(f []string, s string) int {
 	for i, x := range f {
@@ -491,15 +547,14 @@ func c16(r *rng, tier string, o *out) {
 			o.violation(idx, v)
 		}
 		// header = bounding box and its centre, to within one E7 unit of the exact values
-		var h [6]int64
-		if n, _ := fmt.Sscan(impl, &h[0], &h[1], &h[2], &h[3], &h[4], &h[5]); n == 6 {
+		if tk := strings.Fields(impl); len(tk) == 6 { // canonical form: exact value / "mid" when within one unit, the stored value otherwise
 			sort.Slice(lons, func(i, j int) bool { return lons[i] < lons[j] })
 			sort.Slice(lats, func(i, j int) bool { return lats[i] < lats[j] })
-			want := [6]int64{lons[0] * 1000, lats[0] * 1000, lons[len(lons)-1] * 1000, lats[len(lats)-1] * 1000,
-				(lons[0] + lons[len(lons)-1]) * 500, (lats[0] + lats[len(lats)-1]) * 500}
+			want := [6]string{fmt.Sprint(lons[0] * 1000), fmt.Sprint(lats[0] * 1000), fmt.Sprint(lons[len(lons)-1] * 1000), fmt.Sprint(lats[len(lats)-1] * 1000), "mid", "mid"}
 			for i := range want {
-				if d := h[i] - want[i]; d < -1 || d > 1 {
-					o.violation(idx, fmt.Sprintf("header bounds/centre field %d is %d, the region's bounding box gives %d", i, h[i], want[i]))
+				if tk[i] != want[i] {
+					o.violation(idx, fmt.Sprintf("header bounds/centre field %d is %s, more than one E7 unit from what the region's bounding box gives (%s; centre %d / %d)", i, tk[i], want[i],
+						(lons[0]+lons[len(lons)-1])*500, (lats[0]+lats[len(lats)-1])*500))
 					break
 				}
 			}
